@@ -40,10 +40,15 @@ def Db.patchFn (d : Db) (a b : Rev) : Option (List Stmt) :=
 
 /-! ### the commit walk of `doltdb.CommitItrForRoots` (depth first, last parent first) -/
 
+def Db.parentsOf (d : Db) (i : Nat) : List Nat :=
+  match d.commit? i with
+  | some c => c.parents
+  | none => []
+
 def Db.walkAux (d : Db) : Nat → Nat → List Nat → List Nat → List Nat → List Nat
   | 0, _, _, _, acc => acc.reverse
   | fuel + 1, curr, stack, added, acc =>
-    let ps := match d.commit? curr with | some c => c.parents | none => []
+    let ps := d.parentsOf curr
     let (stack1, added1) := ps.foldl (fun (sa : List Nat × List Nat) h =>
       if sa.2.contains h then sa else (sa.1 ++ [h], h :: sa.2)) (stack, added)
     match stack1.getLast? with
@@ -81,7 +86,7 @@ def Db.diffTableAux (d : Db) (t : String) (target : List Col) :
     let toInfo := match info.find? (fun e => e.1 = cm) with
       | some e => e.2
       | none => (none, none)
-    let ps := match d.commit? cm with | some c => c.parents | none => []
+    let ps := d.parentsOf cm
     let info1 := ps.foldl (fun (m : List (Nat × Option Nat × Option Table)) h =>
       (h, some cm, tbl) :: m.filter (fun e => e.1 ≠ h)) info
     if tbl ≠ toInfo.2 then
